@@ -76,18 +76,21 @@ NnfCheck(C) ==
                                THEN \A M \in SUBSET (1..n) : CNFSat(C.cnf, M) => ~LitTrue(nm.cnf, M)
                                ELSE /\ nm.nnf # 0
                                     /\ g[AbsI(nm.nnf)].t = "atom" /\ g[AbsI(nm.nnf)].var = AbsI(nm.cnf)
-                                    /\ (nm.nnf > 0) = (nm.cnf > 0) ]
+                                    /\ (nm.nnf > 0) = (nm.cnf > 0),
+        \* constraints are carried over: the circuit has, on the atoms that stand for the same CNF variables, exactly the
+        \* constraints of the CNF (C.cc / C.nc: one sequence <<kind, extra, members...>> per constraint, in CNF variables, sorted)
+        constraints |-> C.cc = C.nc ]
 
 JudgeCase(C) ==
   LET nn == IF C.hasnnf = 1 THEN NnfCheck(C)
-            ELSE [ decomposable |-> TRUE, smooth |-> TRUE, deterministic |-> TRUE, sameModels |-> TRUE, labels |-> TRUE ]
+            ELSE [ decomposable |-> TRUE, smooth |-> TRUE, deterministic |-> TRUE, sameModels |-> TRUE, labels |-> TRUE, constraints |-> TRUE ]
   IN  [ id |-> C.id,
         dagAcyclic |-> Acyclic(C.dag),
         dagMeaning |-> DagMeaning(C),
         cnfConstraints |-> CnfConstraints(C),
         cnfCompletion |-> CnfCheck(C),
         nnfDecomposable |-> nn.decomposable, nnfSmooth |-> nn.smooth, nnfDeterministic |-> nn.deterministic,
-        nnfSameModels |-> nn.sameModels, nnfLabels |-> nn.labels ]
+        nnfSameModels |-> nn.sameModels, nnfLabels |-> nn.labels, nnfConstraints |-> nn.constraints ]
 
 Results == [ c \in DOMAIN Cases |-> JudgeCase(Cases[c]) ]
 ASSUME ndJsonSerialize(IOEnv.OUT_FILE, Results)
